@@ -53,9 +53,10 @@ type Profile struct {
 	OddQueries   float64 // probability of unsupported query shapes
 	EDNSProb     float64
 	EDNSOptions  bool
-	FailActs     float64 // probability that a token's upstream behaviour is a failure
-	MixedActs    float64 // first attempts fail, later succeed
-	Garbage      float64 // probability that an op is garbage
+	FailActs     float64  // probability that a token's upstream behaviour is a failure
+	FailKinds    []string // the failures FailActs chooses from (default: all)
+	MixedActs    float64  // first attempts fail, later succeed
+	Garbage      float64  // probability that an op is garbage
 	GarbageReply float64
 	// HugeAnswers: answers at the 64 KiB boundary (upstreams are stream kinds then).
 	HugeAnswers float64
@@ -113,6 +114,12 @@ func ProfileFor(focus, arm string) Profile {
 		p.Garbage, p.GarbageReply, p.OddQueries = 0.5, 0.3, 0.1
 		p.DupReply = 0.15
 		p.LongNames = 0.1
+		// connections that end without a reply (or with half of one): to a DoH
+		// transport that is a round trip that fails
+		p.FailActs = 0.1
+		// (not half a frame: on a multiplexed connection nothing can follow it,
+		// and the probes would share that connection)
+		p.FailKinds = []string{"fin", "rst", "silent"}
 		p.RichRules = true
 		p.NUpstreams = [2]int{1, 3}
 		p.NConns, p.OpsPerConn = [2]int{4, 10}, [2]int{1, 6}
@@ -162,6 +169,9 @@ func ProfileFor(focus, arm string) Profile {
 		if focus == "C04" {
 			// answers the proxy makes itself (NOTIMP) between the forwarded ones
 			p.OddQueries = 0.08
+			// replies cut short (the retry's proper answer follows): what lies
+			// behind a short datagram in a pooled read buffer is another answer
+			p.GarbageReply = 0.08
 		}
 		if arm == "late" {
 			p.LateReply = 0.15
@@ -258,6 +268,9 @@ func ProfileFor(focus, arm string) Profile {
 		p.SpanUs = 300_000
 		p.DelayUs = [2]int64{100, 400_000}
 		p.Yields = true
+		// connections whose segments straddle frame boundaries for longer than
+		// the listener's idle time-out
+		p.LongLived = 0.12
 		if arm == "overload" {
 			p.Overload = true
 		}
@@ -282,7 +295,7 @@ func Generate(seed uint64, focus, arm string) *plan.Plan {
 		p.Knobs.PassDoubleRelease = true
 		p.Knobs.Quarantine = 0
 	}
-	if (focus == "C04" || focus == "C13") && p.Family == "router" && r2.p(0.35) {
+	if (focus == "C04" || focus == "C13" || focus == "C07" && arm == "redis") && p.Family == "router" && r2.p(0.35) {
 		// buffers keep their contents when released and are reusable at once (as
 		// shipped): what is sent from a buffer released too early is then another
 		// response's bytes, not a pattern that no client can decode
@@ -397,6 +410,11 @@ func generate(seed uint64, focus, arm string) *plan.Plan {
 		p.Router.Ops, p.Router.Conns = nil, nil
 	}
 	if arm == "redis" {
+		if p.Knobs.YieldDensity == 0 && r.p(0.5) {
+			// (the client library's writer lags behind Do only in runs with
+			// scheduling noise)
+			p.Knobs.YieldDensity = []float64{0.02, 0.1, 0.3}[r.intn(3)]
+		}
 		// second-level cache on the simulated redis server; a small memory
 		// cache in half of the runs so that entries come back through redis
 		rs := &plan.RedisSpec{LatUs: [2]int64{100, int64([]int{600, 5000, 30_000}[r.intn(3)])}}
@@ -411,6 +429,13 @@ func generate(seed uint64, focus, arm string) *plan.Plan {
 		}
 		if r.p(0.2) {
 			rs.FlushUs = []int64{r.i64(2_000_000, max(3_000_000, p.Router.HorizonUs/2))}
+		}
+		if focus == "C08" && r.p(0.2) {
+			// lookups that take seconds: an answer ages while the proxy waits for it
+			rs.SlowGetUs = [2]int64{r.i64(200_000, 1_200_000), r.i64(1_300_000, 3_800_000)}
+			if r.p(0.7) {
+				p.Router.Cache.MemSize = 0
+			}
 		}
 		if focus == "C08" && r.p(0.3) {
 			// a late write: the server stops answering just before three answers
@@ -797,6 +822,9 @@ func genRouter(r *rng, pr *Profile, focus, arm string) *plan.RouterPlan {
 			}
 			longGap = r.i64(800_000, 3_500_000)
 			nops = int(min(18, (idle*1_000_000+4_000_000)/longGap+2))
+			if pr.Seg && srv.Proto != "quic" && r.p(0.5) {
+				rp.Conns[len(rp.Conns)-1].Straddle = true
+			}
 		}
 		for k := 0; k < nops; k++ {
 			op := plan.ClientOp{Idx: opIdx, Conn: ci, ID: base + uint16(k)*uint16(1+r.intn(3)*0+1), NQ: 1, Class: 1, Bits: refdns.BitRD}
@@ -980,7 +1008,11 @@ func genToken(r *rng, pr *Profile, qtype uint16) *plan.TokenSpec {
 	d := func() int64 { return r.i64(pr.DelayUs[0], pr.DelayUs[1]) }
 	switch {
 	case r.p(pr.FailActs):
-		k := []string{"silent", "garbage", "fin", "rst", "half_frame"}[r.intn(5)]
+		kinds := []string{"silent", "garbage", "fin", "rst", "half_frame"}
+		if len(pr.FailKinds) > 0 {
+			kinds = pr.FailKinds
+		}
+		k := kinds[r.intn(len(kinds))]
 		act := plan.UpAction{Kind: k, DelayUs: d(), Arg: r.intn(50)}
 		if k == "garbage" {
 			act.Raw = r.bytes(r.rng(0, 11)) // shorter than a header: no decoder accepts it
